@@ -186,6 +186,17 @@ CLAIMS = {
              'commutation is claimed for BSD subclasses as the property states',
         technique='Coq proof (filter/pairing commutation by induction over histories) + API-level correspondence',
         ref='DESIGN.md §5 C13'),
+    'C14': dict(
+        text='Coq theorems c14_event_line / c14_trace_line / c14_callstack_line (every line is the concatenation, in a fixed '
+             'order, of its enabled columns, the column texts not depending on the switches - for all 2^6 settings as arbitrary '
+             'booleans), c14_padding_never_truncates, c14_process_column + c14_lines_incremental (line k names the process '
+             'declared by the thread map as superseded by the table-writing records up to trace k, never by later ones), '
+             'c14_undeclared_unknown, c14_declared; closed under the global context. End-to-end correspondence dump -> events -> '
+             'pairing model -> table evolution -> lines for all 64 settings; callstack lines; colouring checked differentially.',
+        note='partial: colouring (pygments/termcolor), the datetime branch of the timestamp column and formatted_logs are outside '
+             'the model (colour compared with ANSI codes stripped). trusted: Coq kernel+vm_compute; hand model Format.v '
+             '(f-string padding by code points, repr(bytes), table writes of the trace/sampler decoders) validated each run',
+        technique='Coq proof (column algebra; incremental table evolution) + end-to-end correspondence', ref='DESIGN.md §5 C14'),
     'C12': dict(
         text='Coq theorems c12_events/sat_meaning/logs/no_logs_in_events/no_events_in_logs: for EVERY stream and EVERY '
              'configuration the filtered listings equal `filter` of the unfiltered listing by the stated predicate (order and '
